@@ -34,6 +34,10 @@ Definition LT := all_layouts.
 Lemma count_cols_checked : count_cols_ok LT = true.
 Proof. vm_compute. reflexivity. Qed.
 
+(* the count fields are written through numericField only, in layouts without hand-modelled accessors *)
+Lemma count_fields_plain_checked : count_fields_plain LT = true.
+Proof. vm_compute. reflexivity. Qed.
+
 (* ------------------------------------------------------------------ *)
 (* 3. instantiation                                                     *)
 
@@ -89,17 +93,24 @@ Proof. exact (block_count_residues LT all_layouts_ok count_cols_checked f r). Qe
 Theorem counts_tabulated f : adv_only f = true -> tabulatedb (tabulate f) = true.
 Proof. exact (tabulate_tabulated f). Qed.
 
+Theorem counts_tabulate_fits f :
+  shape_ok LT f = true -> adv_only f = true -> adv_no_iat f = true ->
+  all_file (rec_fitsb LT) f = true -> count_boundsb (tabulate f) = true ->
+  all_file (rec_fitsb LT) (tabulate f) = true.
+Proof. exact (tabulate_fits LT count_fields_plain_checked f). Qed.
+
 Theorem counts_tabulate f g :
   create_counts_of f = Some g ->
-  shape_ok LT f = true -> adv_no_iat f = true -> all_file (rec_fitsb LT) g = true -> count_boundsb g = true ->
+  shape_ok LT f = true -> adv_no_iat f = true -> all_file (rec_fitsb LT) f = true -> count_boundsb g = true ->
   let ls := write_file_padded LT g in
   let fc := last (write_file LT g) [] in
-  fc_batch_count fc = Z.of_nat (batch_header_lines ls)
+  all_file (rec_fitsb LT) g = true
+  /\ fc_batch_count fc = Z.of_nat (batch_header_lines ls)
   /\ fc_entry_count fc = Z.of_nat (entry_addenda_lines ls)
   /\ (fc_block_count fc * 10)%Z = Z.of_nat (length ls)
   /\ length (batch_segments ls) = length (all_batches f)
   /\ Forall (fun s => bc_entry_count (snd s) = Z.of_nat (entry_addenda_lines (fst s))) (batch_segments ls).
-Proof. exact (create_counts_tabulate LT all_layouts_ok count_cols_checked f g). Qed.
+Proof. exact (create_counts_tabulate LT all_layouts_ok count_cols_checked count_fields_plain_checked f g). Qed.
 
 (* the file control line is the last record before the filler *)
 Theorem counts_file_control_line f : last (write_file LT f) [] = render_rec LT (fl_ctl f).
